@@ -65,7 +65,9 @@ def step (st : St) (toks : List String) : Option (St × String × String) :=
       let b (k : String) : Option Bool := (kv rest k).map (· == "1")
       let f ← kv rest "fetch"
       let body ← match (← kv rest "body") with
-        | "none" => some BodyKind.none | "replay" => some .replay | "oneshot" => some .oneshot | _ => none
+        | "none" => some BodyKind.none | "replay" => some .replay | "oneshot" => some .oneshot
+        | "replay0" => some .replay   -- replayable (GetBody set), length not announced: rewound like any other
+        | _ => none
       let i : DoIn := {
         host := ← (← kv rest "host").toNat?, hintKey := ← (← kv rest "hint").toNat?,
         cred := ⟨← b "pw", ← b "rt", ← b "at"⟩, forceOAuth2 := ← b "oauth",
